@@ -858,6 +858,16 @@ impl Family for A9 {
                         _ => crate::gen::gen_password(rng),
                     }));
                 }
+                // with / without a trailing line terminator or blank: two different passwords (derived, not drawn)
+                let mut trimmed = password.0.clone();
+                while matches!(trimmed.last(), Some(b'\n') | Some(b'\r') | Some(b' ')) {
+                    trimmed.pop();
+                }
+                if trimmed != password.0 {
+                    others.push(Hx(trimmed));
+                } else if crate::rng::fnv64(&password.0) % 2 == 1 {
+                    others.push(Hx([password.0.clone(), if crate::rng::fnv64(&password.0) % 4 == 1 { b"\n".to_vec() } else { b"\r\n".to_vec() }].concat()));
+                }
                 Kind::LockRoundTrip { sk, password, salt, others }
             }
             2..=11 => {
@@ -897,6 +907,19 @@ impl Family for A9 {
                         },
                     };
                     toks.push(t);
+                }
+                // names are case-sensitive: some of the plain names appear capitalised or in capitals (position-
+                // derived, not drawn), so that "alice", "Alice" and "ALICE" can be three entries of one keyring
+                for (i, t) in toks.iter_mut().enumerate() {
+                    if let Tok::Name(nm) = t {
+                        if nm == "alice" || nm == "bob" {
+                            match (i + n) % 4 {
+                                0 => *nm = format!("{}{}", nm[..1].to_uppercase(), &nm[1..]),
+                                1 => *nm = nm.to_uppercase(),
+                                _ => {}
+                            }
+                        }
+                    }
                 }
                 Kind::Tokens { toks, crlf: rng.chance(1, 5) }
             }
